@@ -19,7 +19,7 @@ RULE = ("seeded random exports (0-6 sessions, both layouts, 0-4 contests, 0-6 ma
         "x pool_groups; non-trivial = some candidate has >= 2 marks or a Modified block is present; distinct = hash of "
         "(export, options)")
 REQUIRED = ["ref_compared", "meta:marks_shuffled", "meta:sorted_keys", "meta:modified_first", "layout:cards",
-            "layout:contests", "obfuscated_record_ids", "sessions_with_modified", "duplicate_marks_contests",
+            "layout:contests", "obfuscated_record_ids", "sessions_with_modified", "sessions_whose_blocks_use_different_layouts", "duplicate_marks_contests",
             "uncounted_marks_contests", "directory_reads", "group_filtered_out"]
 ASSUMPTIONS = ["a contest appears at most once per data block of a session (the property does not say which copy wins)"]
 N_CASES = {"quick": 24000, "thorough": 200000}
@@ -68,7 +68,9 @@ def gen_export(rng):
         blocks = {"Original": gen_block(rng, all_c, layout)}
         if has_mod:
             sub = rng.sample(all_c, rng.randint(0, len(all_c))) + ([15] if rng.random() < 0.2 else [])
-            blocks["Modified"] = gen_block(rng, sub, layout)
+            # the adjudicated block is written by another component of the system: occasionally in the other layout
+            mixed = rng.random() < 0.15
+            blocks["Modified"] = gen_block(rng, sub, ({"cards": "contests", "contests": "cards"}[layout] if mixed else layout))
             blocks["Original"]["IsCurrent"] = False
         for k in order:
             if k in blocks:
@@ -200,6 +202,8 @@ def run_case(case, rec):
             if "Modified" in s:
                 nontriv = True
                 rec.count("sessions_with_modified")
+                if "Original" in s and ("Cards" in s["Modified"]) != ("Cards" in s["Original"]):
+                    rec.count("sessions_whose_blocks_use_different_layouts")
             for k in ("Original", "Modified"):
                 if k in s:
                     for con in block_contests(s[k]):
